@@ -128,8 +128,8 @@ Section FixedPoint.
   (* on the ellipsoid the initial estimate is already the latitude *)
   Lemma init_exact_on_surface : h = 0 -> - (PI / 2) < phi < PI / 2 -> phi_init a b p z = phi.
   Proof.
-    intros Hz Hs. unfold phi_init. rewrite p_closed. unfold z. subst h. pose proof PI_RGT_0.
-    pose proof (ecc2_range a b Hab). pose proof NH_pos as HN. rewrite Rplus_0_r in HN.
+    intros Hz Hs. unfold phi_init. rewrite p_closed. unfold z. pose proof PI_RGT_0.
+    pose proof (ecc2_range a b Hab). pose proof NH_pos as HN. rewrite Hz in HN |- *. rewrite Rplus_0_r in HN.
     replace ((N * (1 - ecc2 a b) + 0) * sin phi) with ((1 - ecc2 a b) * N * sin phi) by ring.
     replace ((1 - ecc2 a b) * ((N + 0) * cos phi)) with ((1 - ecc2 a b) * N * cos phi) by ring.
     apply atan2_polar; [nra|lra].
@@ -170,10 +170,13 @@ Lemma geodetic_fixed_point lat lon h a b : 0 < b <= a -> - a < h -> Rabs lat <= 
 Proof.
   intros Hab Hh H1 H2. rewrite (geodetic2ecef_ab_spec _ _ _ _ _ H1 H2). unfold geodetic2ecef_spec.
   eexists; eexists; eexists. split; [reflexivity|]. cbv zeta.
-  split; [apply T_fixed_point; [exact Hab|exact Hh|apply deg_guard_lat; exact H1]|]. split.
-  - intros Hs. apply height_at_fixed_point; [exact Hab|exact Hh|apply deg_guard_lat; exact H1|apply deg_guard_lat_strict; exact Hs].
-  - intros Hs Hl. rewrite lon_recovered; [unfold rad; field; apply PI_neq0|exact Hab|exact Hh|apply deg_guard_lat; exact H1
-      |apply deg_guard_lat_strict; exact Hs|apply deg_guard_lon; apply Rabs_le_inv in H2; lra].
+  pose proof (deg_guard_lat lat H1) as P1.
+  split; [exact (T_fixed_point a b (rad lat) (rad lon) h Hab Hh P1)|]. split.
+  - intros Hs. exact (height_at_fixed_point a b (rad lat) (rad lon) h Hab Hh P1 (deg_guard_lat_strict lat Hs)).
+  - intros Hs Hl. apply Rabs_le_inv in H2.
+    rewrite (lon_recovered a b (rad lat) (rad lon) h Hab Hh (deg_guard_lat_strict lat Hs)).
+    + unfold rad. field. apply PI_neq0.
+    + apply deg_guard_lon. lra.
 Qed.
 
 (* longitude through the CODE (every exit of the unrolled loop), any height *)
@@ -185,8 +188,8 @@ Proof.
   rewrite (geodetic2ecef_ab_spec _ _ _ _ _ L1 L2) in G. unfold geodetic2ecef_spec in G. apply Val_inv3 in G.
   destruct G as (<- & <- & <-).
   rewrite unrolled_is_model in E. apply model_lon in E. rewrite E.
-  rewrite lon_recovered; [unfold rad; field; apply PI_neq0|exact Hab|exact Hh|apply deg_guard_lat; exact L1
-      |apply deg_guard_lat_strict; exact H1|apply deg_guard_lon; exact H2].
+  rewrite (lon_recovered a b (rad lat) (rad lon) h Hab Hh (deg_guard_lat_strict lat H1) (deg_guard_lon lon H2)).
+  unfold rad. field. apply PI_neq0.
 Qed.
 
 (* the whole round trip through the CODE is exact on the ellipsoid *)
@@ -195,15 +198,13 @@ Lemma geodetic_roundtrip_surface lat lon a b : 0 < b <= a -> Rabs lat < 90 -> - 
 Proof.
   intros Hab H1 H2.
   assert (L1 : Rabs lat <= 90) by lra. assert (L2 : Rabs lon <= 180) by (apply Rabs_le; lra).
+  assert (Hh : - a < 0) by lra.
   rewrite (geodetic2ecef_ab_spec _ _ _ _ _ L1 L2). unfold geodetic2ecef_spec.
   eexists; eexists; eexists. split; [reflexivity|].
   rewrite unrolled_is_model.
-  rewrite (model_exact_on_surface a b (rad lat) (rad lon) 0 Hab); try reflexivity.
-  - unfold rad. val_eq; field; apply PI_neq0.
-  - lra.
-  - apply deg_guard_lat; exact L1.
-  - apply deg_guard_lat_strict; exact H1.
-  - apply deg_guard_lon; exact H2.
+  rewrite (model_exact_on_surface a b (rad lat) (rad lon) 0 Hab Hh (deg_guard_lat lat L1) 4 eq_refl
+             (deg_guard_lat_strict lat H1) (deg_guard_lon lon H2)).
+  unfold rad. val_eq; field; apply PI_neq0.
 Qed.
 
 (* why the theorems stop short of the poles: in the real-number model the height formula degenerates there
